@@ -14,6 +14,15 @@ VARIABLE i
 N(ev) == Len(ev.w1)
 IsInt(a) == a[1] = 0 \/ Norm(a)[2] >= 0
 IntOf(a) == IF a[1] = 0 THEN 0 ELSE LET n == Norm(a) IN n[1] * Pow2(n[2])
+\* the statement: scale * integer = stored weight, integers inside the declared range
+AutoPo2OK(ev) ==
+  \A k \in 1..N(ev) : /\ Eq(Mul32(ev.sc[k], ev.hw[k]), ev.w1[k]) /\ IsInt(ev.hw[k])
+                       /\ (Lead(ev.hw[k]) >= 20 \/ (IntOf(ev.hw[k]) <= Pow2(ev.bits - ev.kn) - 1 /\ IntOf(ev.hw[k]) >= -ev.kn * Pow2(ev.bits - ev.kn)))
+\* the recorded defect F-C14-1 exactly: weights = stored weight * 2^(bits-kn) / 2^integer and
+\* scales = quantizer.scale * 2^integer / 2^(bits-kn)  (so scales*weights = quantizer.scale * stored weight)
+KnownScaledSplit(ev) ==
+  \A k \in 1..N(ev) : /\ Eq(ev.hw[k], Scale2(ev.w1[k], ev.bits - ev.kn - ev.int))
+                       /\ Eq(ev.sc[k], Scale2(ev.qs[k], ev.int - ev.bits + ev.kn))
 RoleVerdicts(ev) ==
   (IF \E k \in 1..N(ev) : ~Eq(ev.w1[k], ev.qw[k]) THEN <<"stored_weight_is_not_the_quantizer_applied_once">> ELSE <<>>)
   \o (IF ev.sgbad = 1 THEN <<"signs_entry_not_aligned_with_weights">>
@@ -22,6 +31,7 @@ RoleVerdicts(ev) ==
                ~Eq(Mul32(IF ev.qkind = "po2" THEN ev.sg[k] ELSE One, P2(IntOf(ev.hw[k]))), ev.w1[k]))
            \/ (ev.qkind = "po2" /\ \E j \in 1..N(ev) : Norm(DAbs(ev.sg[j])) # One)
          THEN <<"po2_split_does_not_rebuild_weight">> ELSE <<>>)
+      ELSE IF ev.qkind = "auto_po2" /\ ~AutoPo2OK(ev) /\ KnownScaledSplit(ev) THEN <<"auto_po2_split_exports_scaled_weight_not_integer_code">>
       ELSE IF ev.qkind = "auto_po2" THEN
         (IF \E k \in 1..N(ev) : ~Eq(Mul32(ev.sc[k], ev.hw[k]), ev.w1[k]) THEN <<"auto_po2_scale_times_integer_is_not_the_weight">> ELSE <<>>)
         \o (IF \E k \in 1..N(ev) : ~IsInt(ev.hw[k]) \/ (IsInt(ev.hw[k]) /\ Lead(ev.hw[k]) < 20 /\
